@@ -277,6 +277,51 @@ Proof.
     unfold if_eq in *. destruct (String.eqb (ur_asset r) a); split; lia.
 Qed.
 
+(* ---------- UpdateNSTBalance: conservation with the ghost terms GNstP / GNstM ---------- *)
+Lemma record_step_cons a s sk pend rk s2 p' : nst_record_step s sk pend rk = Some (s2, p') ->
+  cons a s2 = cons a s /\ stk a s2 = stk a s.
+Proof.
+  intro H. apply record_step_shape in H. destruct H as (r & s1 & G & _ & H). simpl in H. destruct H as (U & ->).
+  pose proof U as F. apply upd_sa_frame in F. destruct F as (u & _).
+  apply upd_sa_spec in U. destruct U as (r1 & -> & _ & Hw & _).
+  unfold cons, stk, value, value_d, dump_of, log_ev. simpl. simpl in u.
+  rewrite value_wd_sset, Hw, value_rec_sset, G. unfold net, stake, with_act. simpl.
+  unfold if_asset, if_eq. destruct (String.eqb (key_asset sk) a); destruct (String.eqb (ur_asset r) a); split; lia.
+Qed.
+
+Lemma share_step_cons a s st a0 prop k row s' : nst_share_step s st a0 prop k row = Some s' ->
+  cons a s' = cons a s /\ stk a s' = stk a s.
+Proof.
+  intro H. apply share_step_shape in H. destruct H as (o & sh & tok & s1 & s2 & z & s3 & s4 & H). simpl in H.
+  destruct H as (_ & _ & _ & _ & U1 & U2 & U3 & U4 & ->).
+  apply upd_oa_spec in U1. destruct U1 as (r1 & -> & Ha & _).
+  apply upd_dg_spec in U2. destruct U2 as (r2 & -> & _).
+  assert (cons a s3 = cons a (w_dg (sset (dg (w_oa (sset (oa s) (oa_key (key_operator k) a0) r1) s)) (dg_key st a0 (key_operator k)) r2)
+                                  (w_oa (sset (oa s) (oa_key (key_operator k) a0) r1) s)) /\
+          stk a s3 = stk a (w_dg (sset (dg (w_oa (sset (oa s) (oa_key (key_operator k) a0) r1) s)) (dg_key st a0 (key_operator k)) r2)
+                                  (w_oa (sset (oa s) (oa_key (key_operator k) a0) r1) s))) as [C3 S3].
+  { destruct z; [eapply delete_staker_cons; eauto | inversion U3; subst; auto]. }
+  apply upd_sa_spec in U4. destruct U4 as (r4 & -> & _ & Hw & _).
+  unfold cons, stk, value, value_d, dump_of, log_ev in *. simpl in *.
+  rewrite value_wd_sset, Hw. rewrite value_pool_sset, Ha in C3. unfold net, stake in *. simpl.
+  unfold if_asset, if_eq in *. destruct (String.eqb (key_asset (sa_key st a0)) a);
+    destruct (String.eqb (key_asset (oa_key (key_operator k) a0)) a); split; lia.
+Qed.
+
+Lemma nst_balance_cons a s st a0 x s' : no_slash st = true -> nst_balance s st a0 x = Some s' ->
+  cons a s' = cons a s /\ stk a s' = stk a s.
+Proof.
+  intros W H. apply (nst_balance_P (fun s0 => cons a s0 = cons a s /\ stk a s0 = stk a s) s st a0 x s' (conj eq_refl eq_refl)); try exact H.
+  - intros s1 _ U. apply upd_sa_spec in U. destruct U as (r1 & -> & _ & Hw & _).
+    unfold cons, stk, value, value_d, dump_of, log_ev. simpl. rewrite value_wd_sset, Hw. unfold sa_key.
+    rewrite if_asset_join by assumption. unfold net, stake. simpl. unfold if_eq. destruct (String.eqb a0 a); split; lia.
+  - intros info f s1 _ _ _ U. apply upd_sa_spec in U. destruct U as (r1 & -> & _ & Hw & _).
+    unfold cons, stk, value, value_d, dump_of, log_ev. simpl. rewrite value_wd_sset, Hw. unfold sa_key.
+    rewrite if_asset_join by assumption. unfold net, stake. simpl. unfold if_eq. destruct (String.eqb a0 a); split; lia.
+  - intros s0 pend rk s2 p' _ [C S] E. destruct (record_step_cons a _ _ _ _ _ _ E) as [-> ->]. auto.
+  - intros prop s0 k row s2 [C S] E. destruct (share_step_cons a _ _ _ _ _ _ _ E) as [-> ->]. auto.
+Qed.
+
 Lemma step_cons a s o : idx_inv s -> wf_op o = true ->
   cons a (fst (step s o)) = cons a s /\ stk a (fst (step s o)) = stk a s.
 Proof.
@@ -295,7 +340,8 @@ Proof.
   - apply hold_dec_cons.
   - destruct (end_block_idx (fun s' => cons a s' = cons a s /\ stk a s' = stk a s)) with (s := s) as (_ & Q & _); auto.
     intros s0 r I0 G [C S]. destruct (process_cons a s0 r I0 G) as [-> ->]. auto.
-  - discriminate.
+  - apply andb_prop in Wf. destruct Wf as [W1 _].
+    destruct (nst_balance s staker asset x) as [s'|] eqn:E; simpl; [|auto]. exact (nst_balance_cons a s staker asset x s' W1 E).
 Qed.
 
 (* induction over histories *)
